@@ -46,14 +46,16 @@ InflSeqs(s, b) == {s.dd[o].s : o \in {x \in Infl(s) : s.dd[x].k = "act" /\ s.dd[
 FailedSeqs(s, b) == Cardinality({o \in SeqsOf(s, b) : s.dur[o].st = FA})
 RunCalls(s, o) == s.tot[o] - s.rb[o]
 BypassedScope(s, sc) == HasGroup(s, sc, "bypass") /\ s.grpRes[Grp(sc, "bypass")] = "ok"
-BlockChecksFailed(s, b) == \E g \in CheckGroups : HasGroup(s, b, g) /\ s.grpFail[Grp(b, g)]
-PlanGroupFailed(s, g) == HasGroup(s, 0, g) /\ s.grpFail[Grp(0, g)]
+\* a check group failed: observed at the plugin in this process lifetime, or durably Failed at the crash
+GroupFailed(s, b, g) == HasGroup(s, b, g) /\ (s.grpFail[Grp(b, g)] \/ (s.crashed /\ s.cdur[Grp(b, g)].st = FA))
+BlockChecksFailed(s, b) == \E g \in CheckGroups : GroupFailed(s, b, g)
+PlanGroupFailed(s, g) == GroupFailed(s, 0, g)
 Live(s) == ~s.crashed          \* first process lifetime of the plan (C01..C07 are stated for it)
 Running(s) == Live(s) /\ s.waited = <<>> /\ ~s.frozen
 Resumed(s) == s.crashed /\ s.wasRunning /\ s.rec /\ ~s.old   \* a plan the new process must resume
 
 Letter(out) == CASE out = "ok" -> "o" [] out = "tr" -> "t" [] out = "perm" -> "p"
-                 [] out = "wrongtype" -> "w" [] out = "overrun" -> "x" [] OTHER -> "?"
+                 [] out \in {"wrongtype", "wrongtr"} -> "w" [] out = "overrun" -> "x" [] OTHER -> "?"
 DigStr(q) == IF q = <<>> THEN "-" ELSE FoldLeft(LAMBDA acc, x : acc \o x, "", q)
 
 SnapOf(sn) == [o \in {x.obj : x \in ToSet(sn)} |-> CHOOSE x \in ToSet(sn) : x.obj = o]
@@ -77,7 +79,7 @@ InitObs(c) ==
     grpOpen |-> [g \in G |-> FALSE], grpRuns |-> [g \in G |-> 0],
     grpRes |-> [g \in G |-> "none"], grpFirst |-> [g \in G |-> "none"], grpFail |-> [g \in G |-> FALSE],
     seqRuns |-> [o \in {x \in N : \E d \in ToSet(c.objs) : d.obj = x /\ d.k = "seq"} |-> 0],
-    seqStarted |-> {}, defStarted |-> {}, entered |-> {},
+    seqStarted |-> {}, invoked |-> {}, defStarted |-> {}, entered |-> {},
     termW |-> {},                      \* objects written terminal in this lifetime
     frozen |-> FALSE, waited |-> <<>>, wreason |-> "-",
     crashed |-> FALSE, cdur |-> <<>>, base |-> "-", wasRunning |-> FALSE,
@@ -132,11 +134,12 @@ C03_Bound(s, e) == (IsW(e) /\ Running(s) /\ D(s, e.obj).k = "seq" /\ e.st = FA) 
 C03_StopExact(s, e) == (IsW(e) /\ Running(s) /\ D(s, e.obj).k = "seq" /\ e.st = RU) =>
     LET b == D(s, e.obj).b  t == BlockCfg(s, b).tol IN
     (t >= 0 /\ BlockCfg(s, b).conc = 1) => FailedSeqs(s, b) <= t
-C03_BlockVerdict(s, e) == (IsW(e) /\ Running(s) /\ D(s, e.obj).k = "blk" /\ Terminal(e.st) /\ Changes(s, e)) =>
+Executing(s) == Running(s) \/ (Resumed(s) /\ s.waited = <<>> /\ ~s.frozen)   \* also a resumed plan before its final write
+C03_BlockVerdict(s, e) == (IsW(e) /\ Executing(s) /\ D(s, e.obj).k = "blk" /\ Terminal(e.st) /\ Changes(s, e)) =>
     LET b == D(s, e.obj).b  t == BlockCfg(s, b).tol  exceeded == t >= 0 /\ FailedSeqs(s, b) > t IN
     /\ e.st = FA => (exceeded \/ BlockChecksFailed(s, b) \/ PlanGroupFailed(s, "cont"))
     /\ e.st = CO => (~exceeded /\ ~BlockChecksFailed(s, b))
-    /\ (e.st = CO /\ ~BypassedScope(s, b)) => \A q \in SeqsOf(s, b) : Terminal(s.dur[q].st)
+    /\ (e.st = CO /\ Live(s) /\ ~BypassedScope(s, b)) => \A q \in SeqsOf(s, b) : Terminal(s.dur[q].st)
 C03_AfterFailedBlock(s, e) ==
     /\ (IsP(e) /\ Running(s) /\ D(s, e.obj).b >= 1) => \A i \in 1..(D(s, e.obj).b - 1) : s.dur[ScopeName(i)].st # FA
     /\ (e.ev = "WaitRet" /\ Live(s)) =>
@@ -191,14 +194,15 @@ C04_FailedCheckFailsPlan(s, e) == (e.ev = "WaitRet" /\ Live(s) /\ ~BypassedScope
 
 (* ---------------- C05: attempts ---------------- *)
 C05_Bound(s, e) == (IsP(e) /\ Running(s)) => RunCalls(s, e.obj) + 1 <= Retries(s, D(s, e.obj)) + 1
-C05_StopOnFinal(s, e) == (IsP(e) /\ Running(s)) => s.lastOut[e.obj] \notin {"ok", "perm", "wrongtype"}
+FinalOut == {"ok", "perm", "wrongtype", "wrongtr"}   \* outcomes after which the plugin is never invoked again
+C05_StopOnFinal(s, e) == (IsP(e) /\ Running(s)) => s.lastOut[e.obj] \notin FinalOut
 C05_OneAttemptPerCall(s, e) == (IsW(e) /\ Running(s) /\ D(s, e.obj).k \in {"act", "cact"}) =>
     /\ e.natt <= RunCalls(s, e.obj)
     /\ e.aok
     /\ Terminal(e.st) =>
           /\ e.natt = RunCalls(s, e.obj)
           /\ (e.st = CO) <=> (e.last = "ok")
-          /\ e.st = FA => (s.lastOut[e.obj] \in {"perm", "wrongtype"} \/ RunCalls(s, e.obj) = Retries(s, D(s, e.obj)) + 1
+          /\ e.st = FA => (s.lastOut[e.obj] \in {"perm", "wrongtype", "wrongtr"} \/ RunCalls(s, e.obj) = Retries(s, D(s, e.obj)) + 1
                            \/ s.lastOut[e.obj] = "none")
 C05_Recorded(s, e) == (e.ev = "WaitRet" /\ Live(s)) =>
     \A x \in ToSet(e.snap) : (D(s, x.obj).k \in {"act", "cact"} /\ s.inflN[x.obj] = 0 /\ "?" \notin ToSet(s.outs[x.obj])) =>
@@ -224,9 +228,15 @@ C06_PreFailBlocks(s, e) ==
           /\ HasGroup(s, 0, "pre") => ~s.grpFail[Grp(0, "pre")]
           /\ HasGroup(s, D(s, e.obj).b, "pre") => ~s.grpFail[Grp(D(s, e.obj).b, "pre")]
     /\ (e.ev = "WaitRet" /\ Live(s) /\ ~BypassedScope(s, 0)) => (PlanGroupFailed(s, "pre") => SnapOf(e.snap)["p"].st = FA)
-C06_ContInitialFail(s, e) == (IsP(e) /\ Running(s) /\ D(s, e.obj).k = "act") =>
-    /\ HasGroup(s, 0, "cont") => s.grpFirst[Grp(0, "cont")] # "fail"
-    /\ HasGroup(s, D(s, e.obj).b, "cont") => s.grpFirst[Grp(D(s, e.obj).b, "cont")] # "fail"
+C06_ContInitialFail(s, e) ==
+    \* no sequence action is invoked after a failed initial run ...
+    /\ (IsP(e) /\ Running(s) /\ D(s, e.obj).k = "act") =>
+          /\ HasGroup(s, 0, "cont") => s.grpFirst[Grp(0, "cont")] # "fail"
+          /\ HasGroup(s, D(s, e.obj).b, "cont") => s.grpFirst[Grp(D(s, e.obj).b, "cont")] # "fail"
+    \* ... nor before it: when the first run of a cont group ends Failed nothing of the scope has been invoked yet
+    /\ (IsW(e) /\ Running(s) /\ D(s, e.obj).k = "chk" /\ D(s, e.obj).g = "cont" /\ e.st = FA
+          /\ s.grpOpen[e.obj] /\ s.grpFirst[e.obj] = "none") =>
+          \A q \in s.invoked : ~InScope(D(s, q), D(s, e.obj).b)
 
 (* ---------------- C07: continuous and deferred checks ---------------- *)
 C07_ContKeepsRunning(s, e) == e.ev = "HoldTimeout" => FALSE
@@ -299,7 +309,7 @@ C11_AgedOut(s, e) == (s.crashed /\ s.wasRunning /\ s.rec /\ s.old) =>
     /\ e.ev \in {"WaitRet", "Read"} =>
           /\ e.ok /\ SnapOf(e.snap)["p"].st = FA /\ e.reason = "FRExceedRecovery"
           /\ \A x \in ToSet(e.snap) : x.st # RU
-C11_Resumed(s, e) == (e.ev = "WaitRet" /\ Resumed(s)) => (e.ok /\ Terminal(SnapOf(e.snap)["p"].st))
+C11_Resumed(s, e) == (e.ev = "WaitRet" /\ Resumed(s)) => (e.ok /\ Terminal(SnapOf(e.snap)["p"].st) /\ e.reason # "FRExceedRecovery")
 
 (* ---------------- C12: at most one execution ---------------- *)
 C12_AtMostOnce(s, e) ==
@@ -309,6 +319,8 @@ C12_AtMostOnce(s, e) ==
 C12_SecondStartRejected(s, e) == (e.ev = "StartRet" /\ e.after) => ~e.ok
 C12_StaleRejected(s, e) == (e.ev = "StartRet" /\ e.stale) => ~e.ok
 C12_NoDeath(s, e) == e.ev \in {"ProcDied", "Panic"} => FALSE
+\* a rejected call has no side effects: in particular Wait still returns afterwards
+C12_NoHang(s, e) == (e.ev = "Hang" /\ s.cfg.mode = "api") => FALSE
 
 ClauseNames == {
     "C01_BlockOrder", "C01_ActionOrder", "C01_PreGate", "C01_PostAfterSeqs", "C01_DeferredLast",
@@ -324,7 +336,7 @@ ClauseNames == {
     "C10_Terminates", "C10_Terminal", "C10_NothingRunning", "C10_Quiescent", "C10_Stable", "C10_Consistent", "C10_Times",
     "C10_DeferredRan", "C10_SameOutcome",
     "C11_Untouched", "C11_AgedOut", "C11_Resumed",
-    "C12_AtMostOnce", "C12_SecondStartRejected", "C12_StaleRejected", "C12_NoDeath" }
+    "C12_AtMostOnce", "C12_SecondStartRejected", "C12_StaleRejected", "C12_NoDeath", "C12_NoHang" }
 
 Holds(c, s, e) ==
     CASE c = "C01_BlockOrder" -> C01_BlockOrder(s, e) [] c = "C01_ActionOrder" -> C01_ActionOrder(s, e)
@@ -358,7 +370,7 @@ Holds(c, s, e) ==
       [] c = "C11_Resumed" -> C11_Resumed(s, e)
       [] c = "C12_AtMostOnce" -> C12_AtMostOnce(s, e) [] c = "C12_SecondStartRejected" -> C12_SecondStartRejected(s, e)
       [] c = "C12_StaleRejected" -> C12_StaleRejected(s, e)
-      [] c = "C12_NoDeath" -> C12_NoDeath(s, e)
+      [] c = "C12_NoDeath" -> C12_NoDeath(s, e) [] c = "C12_NoHang" -> C12_NoHang(s, e)
 
 Violated(s, e) == {c \in ClauseNames : ~Holds(c, s, e)}
 
@@ -389,6 +401,7 @@ ObsPStart(s, e) ==
             !.tot[e.obj] = @ + 1,
             !.outs[e.obj] = Append(@, "?"),
             !.seqStarted = IF d.k = "act" THEN @ \cup {SeqName(d.b, d.s)} ELSE @,
+            !.invoked = IF d.k = "act" THEN @ \cup {SeqName(d.b, d.s)} ELSE @,
             !.defStarted = IF d.k = "cact" /\ d.g = "deferred" THEN @ \cup {d.b} ELSE @]
 
 ObsPEnd(s, e) ==
@@ -401,7 +414,7 @@ ObsPEnd(s, e) ==
             !.outs[e.obj] = IF i \in 1..Len(@) THEN [@ EXCEPT ![i] = Letter(e.out)] ELSE @,
             \* a check action has failed when a call ends with a permanent failure or with the last allowed attempt failing
             !.grpFail = IF d.k = "cact" /\ d.g # "bypass" /\ i = Len(s.outs[e.obj]) /\ e.out # "ok"
-                           /\ (e.out \in {"perm", "wrongtype"} \/ i >= Retries(s, d) + 1)
+                           /\ (e.out \in {"perm", "wrongtype", "wrongtr"} \/ i >= Retries(s, d) + 1)
                         THEN [@ EXCEPT ![GroupOfAct(d)] = TRUE] ELSE @]
 
 ObsCrash(s, e) ==
